@@ -326,6 +326,17 @@ def gen_c01(ctx):
             if len(ls) - 1 > r and ls != 'kN': continue
             for what in ('read', 'write', 'multi'):
                 out.append(base(k, ka, max(r, 1), ls, default='N', phases=[[req(0, 0, reg=47510, count=1, what=what), req(1, 20000, reg=35100, count=4)]]))
+    # two callers at once: while the first waits for its answer the second (another kind of request, another register, another count) queues for
+    # its turn; the peer answers the first caller's transmission with a well-formed answer to the SECOND caller's request (then answers properly)
+    for (k, ka, r) in configs(ctx.deep):
+        for (a_what, a_reg, a_cnt), (b_what, b_reg, b_cnt) in ((('read', 47510, 1), ('read', 35100, 4)), (('read', 47510, 1), ('write', 47510, 7)),
+                                                                 (('write', 47511, 3), ('read', 47511, 1)), (('read', 35100, 4), ('read', 35100, 6)),
+                                                                 (('multi', 47547, 4), ('read', 47547, 4))):
+            other = dict(reg=b_reg, val=b_cnt, count=b_cnt, fn={'read': 3, 'write': 6, 'multi': 16}[b_what])
+            for ls in ([dict(other=other)], ['D', dict(other=other)], [dict(other=other, delay=0.6), dict(other=other)]):
+                if len(ls) - 1 > r: continue
+                out.append(base(k, ka, max(r, 1), ls, default='N',
+                                phases=[[req(0, 0, reg=a_reg, count=a_cnt, what=a_what), req(1, 100, reg=b_reg, count=b_cnt, what=b_what)]]))
     for sc in out:
         if sc['kind'] == 'udp' and 'framing' not in sc and ctx.rng.random() < 0.2: sc['framing'] = 'aa55'
     return out
